@@ -1,0 +1,145 @@
+//go:build verif
+
+// Contracts for package imapwire, checked by /verif/govc (see
+// /verif/DESIGN.md). Only compiled with the build tag "verif".
+
+package imapwire
+
+import (
+	"bufio"
+
+	"github.com/emersion/go-imap/v2"
+)
+
+var _ imap.UID // used by //@ func headers
+
+// ---------------------------------------------------------------------------
+// Decoder error discipline (C02, C04, C05, C06): an Expect* method that
+// reports failure has recorded a decoder error, and a recorded error is never
+// cleared or replaced by any decoder method ("sticky").
+
+//@ rule (dec *Decoder)
+//@   props C02:post,pre@call C04:post,pre@call C05:post,pre@call C06:bounds,assert-type,div0,panic-unreachable,pre@call
+//@   post-all
+//@   loopinv old(dec.err) != nil ==> dec.err == old(dec.err)
+//@   requires dec != nil
+//@   ensures old(dec.err) != nil ==> dec.err == old(dec.err)
+//@   exclude List ExpectList ExpectNList Func
+
+//@ func (dec *Decoder) returnErr(err error) (result bool)
+//@   ensures result == (err == nil)
+//@   ensures !result ==> dec.err != nil
+//@   ensures dec.literal == old(dec.literal) && dec.listDepth == old(dec.listDepth)
+
+//@ func (dec *Decoder) Expect(ok bool, name string) (result bool)
+//@   ensures result == ok
+//@   ensures !result ==> dec.err != nil
+
+// Methods that run caller-supplied callbacks: the callbacks are decoder
+// clients (closures in imapserver / imapclient that call decoder methods); that
+// they preserve the sticky error is assumed here, not proved.
+
+//@ func (dec *Decoder) Func(ptr *string, valid func(ch byte) bool) (result bool)
+//@   props C02:post,pre@call C04:post,pre@call C05:post,pre@call C06:bounds,assert-type,div0,panic-unreachable,pre@call
+//@   trusted
+//@   ensures old(dec.err) != nil ==> dec.err == old(dec.err)
+
+//@ func (dec *Decoder) List(f func() error) (isList bool, err error)
+//@   props C02:post,pre@call C04:post,pre@call C05:post,pre@call C06:bounds,assert-type,div0,panic-unreachable,pre@call
+//@   trusted
+//@   ensures old(dec.err) != nil ==> dec.err == old(dec.err)
+
+//@ func (dec *Decoder) ExpectList(f func() error) (err error)
+//@   props C02:post,pre@call C04:post,pre@call C05:post,pre@call C06:bounds,assert-type,div0,panic-unreachable,pre@call
+//@   trusted
+//@   ensures old(dec.err) != nil ==> dec.err == old(dec.err)
+
+//@ func (dec *Decoder) ExpectNList(f func() error) (err error)
+//@   props C02:post,pre@call C04:post,pre@call C05:post,pre@call C06:bounds,assert-type,div0,panic-unreachable,pre@call
+//@   trusted
+//@   ensures old(dec.err) != nil ==> dec.err == old(dec.err)
+
+//@ func (dec *Decoder) ExpectSP() (result bool)
+//@   ensures !result ==> dec.err != nil
+
+//@ func (dec *Decoder) ExpectCRLF() (result bool)
+//@   ensures !result ==> dec.err != nil
+
+//@ func (dec *Decoder) ExpectAtom(ptr *string) (result bool)
+//@   ensures !result ==> dec.err != nil
+
+//@ func (dec *Decoder) ExpectNIL() (result bool)
+//@   ensures !result ==> dec.err != nil
+
+//@ func (dec *Decoder) ExpectSpecial(b byte) (result bool)
+//@   ensures !result ==> dec.err != nil
+
+//@ func (dec *Decoder) ExpectText(ptr *string) (result bool)
+//@   ensures !result ==> dec.err != nil
+
+//@ func (dec *Decoder) ExpectNumber(ptr *uint32) (result bool)
+//@   ensures !result ==> dec.err != nil
+
+//@ func (dec *Decoder) ExpectBodyFldOctets(ptr *uint32) (result bool)
+//@   ensures !result ==> dec.err != nil
+
+//@ func (dec *Decoder) ExpectNumber64(ptr *int64) (result bool)
+//@   ensures !result ==> dec.err != nil
+
+//@ func (dec *Decoder) ExpectModSeq(ptr *uint64) (result bool)
+//@   ensures !result ==> dec.err != nil
+
+//@ func (dec *Decoder) ExpectAString(ptr *string) (result bool)
+//@   ensures !result ==> dec.err != nil
+
+//@ func (dec *Decoder) ExpectString(ptr *string) (result bool)
+//@   ensures !result ==> dec.err != nil
+
+//@ func (dec *Decoder) ExpectNString(ptr *string) (result bool)
+//@   ensures !result ==> dec.err != nil
+
+//@ func (dec *Decoder) ExpectMailbox(ptr *string) (result bool)
+//@   ensures !result ==> dec.err != nil
+
+//@ func (dec *Decoder) ExpectUID(ptr *imap.UID) (result bool)
+//@   ensures !result ==> dec.err != nil
+
+// isUIDSet / isSeqSet: dynamic type of a number set.
+//
+//@ pure
+func isUIDSet(s imap.NumSet) bool {
+	_, ok := s.(imap.UIDSet)
+	return ok
+}
+
+//@ pure
+func isSeqSet(s imap.NumSet) bool {
+	_, ok := s.(imap.SeqSet)
+	return ok
+}
+
+//@ func (dec *Decoder) ExpectNumSet(kind NumKind, ptr *imap.NumSet) (result bool)
+//@   requires ptr != nil
+//@   ensures !result ==> dec.err != nil
+//@   ensures result && kind == NumKindUID ==> isUIDSet(*ptr)
+
+//@ func (dec *Decoder) ExpectUIDSet(ptr *imap.UIDSet) (result bool)
+//@   ensures !result ==> dec.err != nil
+
+//@ func (dec *Decoder) Err() (result error)
+//@   ensures result == dec.err
+//@   ensures dec.err == old(dec.err)
+
+// Ghost state of bufio.Reader: "the most recent operation was a successful
+// ReadByte", which is exactly when UnreadByte cannot fail. Maintained by the
+// verifier's model of the bufio.Reader methods (assumed stdlib contract).
+func __canUnread(r *bufio.Reader) bool { return true }
+
+//@ func (dec *Decoder) mustUnreadByte()
+//@   requires __canUnread(dec.r)
+//@   ensures dec.literal == old(dec.literal) && dec.listDepth == old(dec.listDepth)
+
+//@ func (dec *Decoder) readByte() (b byte, ok bool)
+//@   ensures ok ==> __canUnread(dec.r)
+//@   ensures !ok ==> dec.err != nil
+//@   ensures dec.literal == old(dec.literal) && dec.listDepth == old(dec.listDepth)
